@@ -1,2 +1,9 @@
-SPECIFICATION Spec
+SPECIFICATION TraceSpec
+CONSTANTS
+  MaxCommits = 0
+  MaxOps = 0
+  MaxActs = 0
+  EmptyPolicies = {}
+  AllowFinding = TRUE
+  Bug = "none"
 CHECK_DEADLOCK FALSE
